@@ -5,7 +5,7 @@ package gen
 import (
 	"strings"
 
-	"verifharness/internal/h"
+	"verifharness/pkg/h"
 
 	"github.com/yosida95/uritemplate/v3"
 )
